@@ -37,6 +37,7 @@ def interp2d(x, xf, f):
     """
     x = np.asarray(x, dtype=float)
     xf = np.asarray(xf, dtype=float)
+    f = np.asarray(f)  # the table is array_like: nested lists are indexed with index arrays below
     x = np.clip(x, np.min(xf), np.max(xf))  # values outside the table take the end rows
     ind = np.argmin(np.abs(x[:, np.newaxis] - xf), axis=1)
     x_ind = xf[ind]
